@@ -27,7 +27,8 @@ def probe_case(rng):
     kind = rng.choice(['file-label-leak-down', 'file-label-leak-up', 'file-const-leak-down', 'local-across-region',
                        'local-after-org', 'local-same-name-two-regions', 'file-same-name-two-files', 'local-before-any-label',
                        'const-does-not-open-region', 'nested-leak', 'local-on-directive-line', 'local-on-directive-line',
-                       'region-opened-on-directive-line', 'duplicate-on-one-line', 'duplicate-on-one-line'])
+                       'region-opened-on-directive-line', 'duplicate-on-one-line', 'duplicate-on-one-line',
+                       'many-labels-in-included-file'])
     ref = lambda n: {'k': 'data', 'w': 2, 'vals': [('label', n)]}  # noqa
     A, B, C = [], [], []
     if kind == 'file-label-leak-down':       # includer defines _x, included file uses it -> must be rejected
@@ -61,6 +62,20 @@ def probe_case(rng):
              {'k': rng.choice(['org', 'memzone']), 'e': ('num', 100), 'z': 'GLOBAL', 'join_next': True},
              {'k': 'label', 'name': 'g2', 'join_next': True}, {'k': 'label', 'name': '.l', 'join_next': rng.random() < 0.5},
              {'k': 'data', 'w': 1, 'vals': [v()]}, ref('.l')]
+    elif kind == 'many-labels-in-included-file':
+        # size: a file with some hundred non-local labels (each opens a region of its own) is included in the middle of a local
+        # region of the includer; that region is the same region before and behind the #include
+        n = rng.choice([127, 128, 129, 200, 260, 300])
+        dup = rng.random() < 0.4
+        A = [{'k': 'label', 'name': 'g1'}, {'k': 'label', 'name': '.l'}, {'k': 'data', 'w': 1, 'vals': [v()]},
+             {'k': 'include', 'f': 1, 'name': 'inc1.asm'}] + \
+            ([{'k': 'label', 'name': '.l'}, {'k': 'data', 'w': 1, 'vals': [v()]}] if dup else
+             [{'k': 'label', 'name': '.m'}, {'k': 'data', 'w': 1, 'vals': [v()]}]) + [ref('.l'), ref('.m') if not dup else ref('g1')]
+        B = []
+        for i in range(n):
+            B += [{'k': 'label', 'name': f'lib_{i}'}, {'k': 'data', 'w': 1, 'vals': [('num', i % 256)]}]
+            if i % 50 == 0:
+                B += [{'k': 'label', 'name': '.l'}, ref('.l')]
     elif kind == 'duplicate-on-one-line':
         # two definitions of one name on the same source line are two definitions (global, file and local names alike);
         # the same local name in two regions that share a line stays legal
